@@ -612,6 +612,26 @@ class Runner:
                 continue
             err = float(np.abs(got - exp).max()) / float(np.abs(exp).max())
             report("projections(dual)", f"projections-{kind}-onto-{ko}-wrong", err, dual=lo)
+        # the same function given by its PROJECTIONS onto its own space (dual representation), asked for its projections onto
+        # another dual space: stored projections must not be handed back for a different dual space (seed C13-d)
+        try:
+            gram_self = exact_gram(ref, ref)
+            if gram_self.shape[0] == gram_self.shape[1] and np.linalg.cond(gram_self) < 1e8:
+                gfd = self.api.GridFunction(gf.space, projections=gram_self @ c, dual_space=gf.space)
+                for (lo, ko, so, _) in others:
+                    ro = self.ref(so)
+                    if so is gf.space or ro.codim != ref.codim or not set(ro.support) & set(ref.support):
+                        continue
+                    exp = exact_gram(ro, ref) @ c
+                    if float(np.abs(exp).max()) == 0:
+                        continue
+                    got = np.asarray(gfd.projections(so))
+                    err = (float(np.abs(got - exp).max()) / float(np.abs(exp).max())) if got.shape == exp.shape else float("inf")
+                    report("projections(dual) of a function given by projections", f"projections-{kind}-dual-representation-onto-{ko}-wrong",
+                           err, dual=lo)
+                    break
+        except np.linalg.LinAlgError:
+            pass
         # evaluate at random local points
         uv = np.array([[0.2, 0.5, 0.1, 1 / 3], [0.3, 0.1, 0.8, 1 / 3]])
         worst = 0.0
